@@ -61,7 +61,7 @@ def finish_history(h):
             continue
         height += 1
         for op in b:
-            if op[0] in (1, 2, 5):
+            if op[0] in (1, 2, 5, 6):
                 i = (op[1], op[2], op[3])
                 if i not in ids:
                     ids.append(i)
@@ -138,6 +138,8 @@ def g_op(h, op):
         return "OCall %d %d %d %d %d" % (op[1], op[2], op[3], op[4], op[5])
     if k == 5:
         return "OIbtp (Build_ibtp %d %d %d 0 0%%Z None %d) %s" % (op[1], op[2], op[3], op[4], pk)
+    if k == 6:
+        return "OCall 9 %d %d %d 0" % (op[1], op[2], op[3])
     raise ValueError(op)
 
 
@@ -176,7 +178,7 @@ def g_case(h, impl_blocks):
 
 
 FLAGS = ["d_timeout_keeps_failed", "d_interbxh_zero_record", "d_multitx_dst_first", "d_unordered",
-         "d_tl_empty_head", "d_delete_interchain", "d_late_child"]
+         "d_tl_empty_head", "d_delete_interchain", "d_late_child", "d_fail_ndst_lost", "d_interhub_timeout"]
 
 
 def g_cfg(flags):
@@ -299,4 +301,227 @@ def gen_mixed(rng, world, nblocks=8, pairs=None, p_group=0.15, p_call=0.12, p_re
         blocks.append(ops)
     if audit is None:
         audit = 1 if rng.random() < 0.3 else 0
+    return mk_history(world, blocks, audit=audit)
+
+
+W_GROUP = dict(svcs=[[0, 1, 1, 1, 1, []],      # 1 source on A
+                     [0, 2, 1, 1, 1, []],      # 2 B
+                     [0, 3, 1, 1, 1, []],      # 3 C
+                     [0, 2, 1, 1, 1, []],      # 4 B (second service on B)
+                     [0, 3, 1, 0, 1, []],      # 5 C frozen: begin fails
+                     [0, 1, 1, 1, 1, []],      # 6 A (destination on the source's own chain)
+                     [0, 4, 1, 1, 1, []]],     # 7 D
+               hubs=[])
+WORLDS["group"] = W_GROUP
+
+
+def pack_blocks(rng, events, p_new_block=0.5, p_empty=0.15, p_restart=0.08):
+    """events: list of ops or the marker 'wait' (an empty block); returns blocks"""
+    blocks, cur = [], []
+    for e in events:
+        if e == "wait":
+            blocks.append(cur)
+            cur = []
+            blocks.append([])
+            continue
+        if e == "cut":
+            blocks.append(cur)
+            cur = []
+            continue
+        cur.append(e)
+        if rng.random() < p_new_block:
+            blocks.append(cur)
+            cur = []
+            if rng.random() < p_empty:
+                blocks.append([])
+            if rng.random() < p_restart:
+                blocks.append(0)
+    if cur:
+        blocks.append(cur)
+    return blocks
+
+
+def gen_group(rng, world=None, audit=None):
+    """one or two one-to-many groups from service 1 with every kind of child fate"""
+    world = world or W_GROUP
+    src = 1
+    dests_all = [2, 3, 4, 6, 7]
+    nxt = {}
+    events = []
+    ngroups = rng.choice([1, 1, 1, 2])
+    for gi in range(1, ngroups + 1):
+        declared = rng.randrange(1, 6)
+        nkids = max(1, declared + rng.choice([0, 0, 0, 0, -1, 1]))
+        nkids = min(nkids, 5)
+        dests = rng.sample(dests_all, min(nkids, len(dests_all)))
+        if rng.random() < 0.15 and nkids >= 2:
+            dests[rng.randrange(len(dests))] = 5            # a child whose destination is unavailable: fails at begin
+        if rng.random() < 0.07 and nkids >= 2:
+            dests[-1] = dests[0]                            # two children on the same pair
+        T = rng.choice([0, 1, 2, 2, 3, 3, 4, 6, -1, 2 ** 63 - 1])
+        kids = []
+        for d in dests:
+            idx = nxt.get(d, 0) + 1
+            nxt[d] = idx
+            kids.append((d, idx))
+        # fate of the group
+        fate = rng.choice(["success", "success", "fail", "fail", "timeout", "mixed", "mixed"])
+        ev = []
+        begins = [[1, src, d, idx, T, gi, declared, 1] for d, idx in kids]
+        order = list(range(len(kids)))
+        rng.shuffle(order)
+        fail_pos = rng.randrange(len(kids))
+        reports = []
+        for j, k in enumerate(order):
+            d, idx = kids[k]
+            if fate == "success":
+                kind = 1
+            elif fate == "fail":
+                kind = 2 if j == fail_pos else rng.choice([1, 1, 2])
+            elif fate == "timeout":
+                kind = rng.choice([1, 3, 2]) if rng.random() < 0.4 else None
+            else:
+                kind = rng.choice([1, 1, 2, 3, None])
+            if kind is not None:
+                reports.append([2, src, d, idx, kind, 1])
+        # interleave: each report after its begin, otherwise random
+        seq = [("b", i) for i in range(len(begins))]
+        for r in reports:
+            bi = next(i for i, b in enumerate(begins) if b[2] == r[2] and b[3] == r[3])
+            pos_b = seq.index(("b", bi))
+            pos = rng.randrange(pos_b + 1, len(seq) + 1)
+            seq.insert(pos, ("r", r))
+        for kind, x in seq:
+            ev.append(begins[x] if kind == "b" else x)
+            if rng.random() < 0.12:
+                ev.append("wait")
+        # follow-ups: second reports (rollback / failure after the group failed or timed out), duplicates, late, unknown
+        for d, idx in kids:
+            if rng.random() < 0.6:
+                ev.append([2, src, d, idx, rng.choice([2, 3, 1, 2, 3]), 1])
+            if rng.random() < 0.1:
+                ev.append("wait")
+        if rng.random() < 0.3:
+            ev.append([2, src, rng.choice(dests_all), rng.randrange(1, 4), rng.choice([1, 2, 3]), 1])   # unknown / late
+        if rng.random() < 0.2:
+            ev.append(begins[rng.randrange(len(begins))])                                            # duplicate begin
+        if rng.random() < 0.15:
+            d = rng.choice(dests_all)
+            idx = nxt.get(d, 0) + 1
+            nxt[d] = idx
+            ev.append([1, src, d, idx, T, gi, declared, 1])                                          # late child
+        for _ in range(rng.choice([0, 1, 2, 4])):
+            ev.append("wait")
+        events += ev
+    # a single (non-group) transaction mixed in, sharing timeout heights
+    if rng.random() < 0.5:
+        d = rng.choice([2, 3])
+        idx = nxt.get(d, 0) + 1
+        pos = rng.randrange(0, len(events) + 1)
+        events.insert(pos, [1, src, d, idx, rng.choice([1, 2, 3]), 0, 0, 1])
+        if rng.random() < 0.6:
+            events.insert(rng.randrange(pos + 1, len(events) + 1), [2, src, d, idx, rng.choice([1, 2, 3]), 1])
+    blocks = pack_blocks(rng, events)
+    blocks += [[] for _ in range(rng.choice([0, 1, 2, 3]))]
+    if audit is None:
+        audit = 1 if rng.random() < 0.2 else 0
+    return mk_history(world, blocks, audit=audit)
+
+
+def gen_timeout(rng, world=None, audit=None):
+    """single transactions with T in {0,1,small,huge}, receipts before / at / after H+T, shared timeout heights,
+    begin-failed requests, restarts in between"""
+    world = world or W_GROUP
+    src = rng.choice([1, 1, 6])
+    nxt = {}
+    # timeline: height -> ops
+    horizon = rng.randrange(6, 14)
+    tl = {h: [] for h in range(START_H, START_H + horizon)}
+    for _ in range(rng.randrange(1, 6)):
+        d = rng.choice([2, 3, 4, 7, 5, 2, 3])
+        H = rng.randrange(START_H, START_H + horizon - 2)
+        T = rng.choice([0, 1, 1, 2, 2, 3, 4, 5, -1, -2 ** 63, 2 ** 63 - 1, 10 ** 9])
+        key = (src, d)
+        tl[H].append(("req", src, d, T))
+        if rng.random() < 0.75:
+            when = rng.choice(["before", "at", "after", "same", "at"])
+            Teff = T if 0 < T < 100 else 3
+            if when == "before":
+                R = rng.randrange(H, H + Teff) if Teff > 0 else H
+            elif when == "at":
+                R = H + Teff
+            elif when == "same":
+                R = H
+            else:
+                R = H + Teff + rng.randrange(1, 3)
+            if R in tl:
+                tl[R].append(("rcp", src, d, rng.choice([1, 1, 2, 2, 3]), H))
+            if rng.random() < 0.3:
+                R2 = R + rng.randrange(0, 3)
+                if R2 in tl:
+                    tl[R2].append(("rcp", src, d, rng.choice([1, 2, 3]), H))
+    # assign indices in timeline order per pair; receipts refer to the request of their pair made at height H
+    blocks = []
+    issued = {}
+    for h in sorted(tl):
+        ops = []
+        evs = tl[h]
+        # requests first or receipts first, randomly
+        if rng.random() < 0.5:
+            evs = sorted(evs, key=lambda e: e[0] != "req")
+        for e in evs:
+            if e[0] == "req":
+                _, s, d, T = e
+                idx = nxt.get((s, d), 0) + 1
+                nxt[(s, d)] = idx
+                issued.setdefault((s, d, h), []).append(idx)
+                ops.append([1, s, d, idx, T, 0, 0, 1])
+            else:
+                _, s, d, kind, H = e
+                lst = issued.get((s, d, H))
+                if lst:
+                    ops.append([2, s, d, lst[0], kind, 1])
+        if rng.random() < 0.1:
+            ops.append([3])
+        blocks.append(ops)
+        if rng.random() < 0.12:
+            blocks.append(0)
+    if audit is None:
+        audit = 1 if rng.random() < 0.15 else 0
+    return mk_history(world, blocks, audit=audit)
+
+
+def gen_hub(rng, world=None, audit=None):
+    """this hub as SOURCE hub: requests to services of remote BitXHubs (one available, one not) and the
+    destination hub's begin-failure / rollback notices, mixed with local traffic"""
+    world = world or W_HUB
+    nxt, nrc = {}, {}
+    blocks = []
+    for _ in range(rng.randrange(3, 9)):
+        ops = []
+        for _ in range(rng.choice([0, 1, 1, 2, 3])):
+            f = rng.choice([1, 2])
+            t = rng.choice([3, 3, 4, 5, 2])
+            r = rng.random()
+            if r < 0.4:
+                exp = nxt.get((f, t), 0) + 1
+                idx = pick_index(rng, exp) if rng.random() < 0.3 else exp
+                ops.append([1, f, t, idx, rng.choice([0, 1, 2, 3, 5]), 0, 0, 1])
+                if idx == exp:
+                    nxt[(f, t)] = exp
+            elif r < 0.8:
+                have = nxt.get((f, t), 0)
+                idx = rng.choice([nrc.get((f, t), 0) + 1, have, 1, have + 1])
+                st = rng.choice([1, 2, 1, 2, 0, 3, 4, 5])
+                ops.append([5, f, t, idx, st, 1])
+                if idx == nrc.get((f, t), 0) + 1 and idx <= have and st in (1, 2):
+                    nrc[(f, t)] = idx
+            else:
+                idx = rng.choice([nrc.get((f, t), 0) + 1, 1])
+                ops.append([2, f, t, idx, rng.choice([1, 2, 3]), 1])
+        blocks.append(ops)
+        if rng.random() < 0.1:
+            blocks.append(0)
+    if audit is None:
+        audit = 1 if rng.random() < 0.2 else 0
     return mk_history(world, blocks, audit=audit)
